@@ -226,6 +226,26 @@ theorem merge_resolves_one_child (H : Bytes → Bytes) (below : Bytes → Option
     (by rw [hctree]; intro a b ha hb hk; rw [hU a b (hin a ha) (hin b hb) hk])
   simpa [mergeMPTChanges] using this
 
+/-- non-vacuity of `merge_resolves_one_child` (and of `merge_resolves_partial`, `view_resolves` through it): the parent
+    did nothing itself, one child inserted a key; after the merge the parent reads the leaf from its own level -/
+example : ∃ p', mergeMPTChanges id ((Trie.open [] .empty 1).applyEvents id [])
+      (({ root := root id (.leaf 1 [3] [65]), tree := .leaf 1 [3] [65], version := 1, cc := { startRoot := [] } } : Trie).applyEvents id
+        ((insertE 1 [65] .empty [] [3]).2 ++ [])) = .ok p' ∧
+    Resolves id (levelGet p' (fun _ => none)) p'.tree [] := by
+  have hC : RoundEvents 1 .empty ((insertE 1 [65] .empty [] [3]).2 ++ []) (.leaf 1 [3] [65]) := by
+    apply RoundEvents.ins _ _ _ _ _ (by simp)
+    have h1 : (insertE 1 [65] .empty [] [3]).1 = .leaf 1 [3] [65] := by simp [insertE]
+    rw [h1]; exact RoundEvents.nil _
+  apply merge_resolves_one_child id (fun _ => none) .empty .empty (.leaf 1 [3] [65]) (Trie.open [] .empty 1) _ 1
+    [] _ ⟨rfl, rfl⟩ rfl ⟨rfl, rfl⟩ (by intro r h; simp [refs] at h) (Or.inl rfl) (RoundEvents.nil _) hC
+  · simp [Trie.applyEvents, insertE, Trie.applyEvent, Trie.insertNode]
+  · simp [Trie.applyEvents, insertE, Trie.applyEvent, Trie.insertNode, Trie.open, Collector.addChange]
+  · simp [Trie.applyEvents, insertE, Trie.applyEvent, Trie.insertNode, Trie.open, root, key]
+  · decide
+  · intro a b ha hb _
+    simp [refs, insertE, eventRefs] at ha hb
+    rw [ha, hb]
+
 /-- The full publication statement: after an accepted merge of a child whose own view resolved, the parent's new root
     resolves in the parent's layered store (`get` = read-through of the parent's level and everything below it).
     Proved as `merge_resolves_partial` under the event discipline of the parent's whole event list (own operations and
